@@ -24,7 +24,21 @@ func C16(c *Ctx) {
 		if w.Sign() == 0 {
 			w = big.NewInt(1)
 		}
-		switch i % 14 {
+		switch i % 16 {
+		case 14, 15:
+			// v*r^2 is always u times a fourth root of unity, and the contract is decided by
+			// comparing it with u, -u and -u*i: make two of those candidates differ by a
+			// structured value (power of two, half-empty limbs), u = delta/(zeta - zeta')
+			roots := []*big.Int{big.NewInt(1), ref.FNeg(big.NewInt(1)), ref.SqrtM1, ref.FNeg(ref.SqrtM1)}
+			a := r.Intn(4)
+			b := (a + 1 + r.Intn(3)) % 4
+			u = ref.FMul(r.StructuredDelta(), ref.FInv(ref.FSub(roots[a], roots[b])))
+			v = big.NewInt(1)
+			if i%16 == 15 {
+				v = w
+				u = ref.FMul(u, v)
+			}
+			class = "candidates differ by a structured value"
 		case 0:
 			u, v, class = big.NewInt(0), big.NewInt(0), "(0,0)"
 		case 1:
